@@ -58,12 +58,20 @@ func c02Frames() []model.Frame {
 		return c
 	}
 	const N = "\x00null"
+	// an enum whose values are derived from the data (no declaration): only =, !=, in, isnull,
+	// like and predicates are used on it (no order is declared)
+	derived := func(name string, v ...string) model.Col {
+		c := strs(name, model.Enum, v...)
+		c.EnumVals = nil
+		return c
+	}
 	f0 := model.Frame{N: 5, Cols: []model.Col{
 		ints("i", 1, 2, 3, 2, 0), ints("i2", 2, 2, 1, 3, 0),
 		floats("f", 1.5, nan, 2, 3, nan), floats("f2", 2, 1, nan, 3, nan),
 		bools("b", true, false, true, false, true), bools("b2", true, true, false, false, true),
 		strs("s", model.String, "a", N, "", "b", N), strs("s2", model.String, "b", "a", N, "b", N),
 		strs("e", model.Enum, "x", N, "y", "z", N), strs("e2", model.Enum, "y", "x", N, "z", N),
+		derived("d", "p", N, "q", "p", N),
 		ints("id", 0, 1, 2, 3, 4),
 	}}
 	f1 := f0.Rows(nil)
@@ -76,6 +84,7 @@ func c02Frames() []model.Frame {
 		bools("b", false, false, true, true, false, true), bools("b2", false, true, true, false, false, true),
 		strs("s", model.String, "a", "ab", "", "B", "\u00e4", "a"), strs("s2", model.String, "ab", "a", N, "b", "\u00e4", "a"),
 		strs("e", model.Enum, "z", "x", "y", N, "z", "x"), strs("e2", model.Enum, "x", "x", N, "y", "z", "z"),
+		derived("d", "q", "q", N, "p", "p", "r"),
 		ints("id", 0, 1, 2, 3, 4, 5),
 	}}
 	return []model.Frame{f0, f1, f2, f3, f4}
@@ -225,6 +234,24 @@ func c02Leaves() []model.Leaf {
 			add(l)
 		}
 	}
+	// derived enum: constants present in the data and absent from it
+	for _, cmp := range []string{"=", "!="} {
+		for _, k := range []string{"p", "q", "absent"} {
+			l := lf("d", cmp, "string")
+			l.S = k
+			add(l)
+		}
+	}
+	{
+		l := lf("d", "in", "strings")
+		l.List = []model.Cell{model.S("p"), model.S("absent")}
+		add(l)
+		add(lf("d", "isnull", "none"))
+		add(lf("d", "fn:nil", "none"))
+		l = lf("d", "like", "string")
+		l.S = "%p%"
+		add(l)
+	}
 	return out
 }
 
@@ -276,6 +303,9 @@ func c02Core(size int) []model.Leaf {
 		mk("b", "fn:id", "none", func(l *model.Leaf) { l.Inverse = true }),
 		mk("s", "<", "string", func(l *model.Leaf) { l.S = "b"; l.Inverse = true }),
 		// 32
+		mk("d", "=", "string", func(l *model.Leaf) { l.S = "absent" }),
+		mk("d", "!=", "string", func(l *model.Leaf) { l.S = "p" }),
+		// 34
 	}
 	if size > len(core) {
 		size = len(core)
@@ -515,9 +545,9 @@ func c02Run(ctx *core.Ctx) {
 	}
 	// tier B: all trees with <= K leaves over the core leaves
 	type tierB struct{ k, depth, coreSize int }
-	plan := []tierB{{1, 3, 32}, {2, 3, 32}, {3, 2, 16}}
+	plan := []tierB{{1, 3, 34}, {2, 3, 34}, {3, 2, 16}}
 	if !ctx.Quick() {
-		plan = []tierB{{1, 3, 32}, {2, 3, 32}, {3, 3, 24}, {4, 2, 10}}
+		plan = []tierB{{1, 3, 34}, {2, 3, 34}, {3, 3, 24}, {4, 2, 10}}
 	}
 	for _, p := range plan {
 		shapes := treeShapes(p.k, p.depth)
